@@ -140,6 +140,25 @@ def facts_for(opts):
         for C in (2, 3, 4):
             for Rr in (2, 3, 4):
                 add('typedef_family', 'std::is_same<glm::aligned_mat%dx%d, glm::mat<%d, %d, float, glm::aligned_highp> >::value' % (C, Rr, C, Rr), 'glm::aligned_mat%dx%d' % (C, Rr))
+        # every typedef gtc/type_aligned.hpp declares (names enumerated from the header itself): the name spells storage, precision, element type and shape
+        import re as _re
+        try:
+            text = open(os.path.join(B.REPO, 'glm', 'gtc', 'type_aligned.hpp')).read()
+        except OSError:
+            text = ''
+        names = sorted(set(_re.findall(r'\b((?:aligned|packed)_(?:highp_|mediump_|lowp_)?[diub]?(?:vec[1-4]|mat[2-4](?:x[2-4])?))\s*;', text)))
+        elem = {'': 'float', 'd': 'double', 'i': 'int', 'u': 'glm::uint', 'b': 'bool'}
+        for nm in names:
+            m_ = _re.match(r'(aligned|packed)_(highp_|mediump_|lowp_)?([diub]?)(vec|mat)([1-4])(?:x([2-4]))?$', nm)
+            st_, pr_, e_, kind_, a_, b_ = m_.groups()
+            q_ = '%s_%s' % (st_, (pr_ or 'highp_')[:-1])
+            if kind_ == 'vec':
+                want = 'glm::vec<%s, %s, glm::%s>' % (a_, elem[e_], q_)
+            else:
+                if e_ in ('i', 'u', 'b'):
+                    continue
+                want = 'glm::mat<%s, %s, %s, glm::%s>' % (a_, b_ or a_, elem[e_], q_)
+            add('typedef_family', 'std::is_same<glm::%s, %s >::value' % (nm, want), 'glm::%s' % nm)
     return F
 
 
